@@ -1604,7 +1604,20 @@ pub fn gen_module(rng: &mut Rng, cfg: &GenCfg) -> Generated {
             } else {
                 name
             };
-            module.section(&CustomSection { name: Cow::Owned(name), data: Cow::Owned(data) });
+            // decided from what was already drawn (no further random choice, so every other byte
+            // the generator writes stays what it was): a name whose length prefix needs two LEB
+            // bytes (>= 128 bytes), and a short name whose length prefix is written with a
+            // redundant continuation byte (wasmparser accepts both)
+            if name == "x" && len == 200 {
+                let long: String = std::iter::repeat('y').take(131).collect();
+                module.section(&CustomSection { name: Cow::Owned(long), data: Cow::Owned(data) });
+            } else if name == "x" && len == 5 {
+                let mut raw = vec![0x81u8, 0x00, b'x'];
+                raw.extend_from_slice(&data);
+                module.section(&wasm_encoder::RawSection { id: 0, data: &raw });
+            } else {
+                module.section(&CustomSection { name: Cow::Owned(name), data: Cow::Owned(data) });
+            }
             n_customs += 1;
         }
     };
